@@ -952,41 +952,114 @@ func (p *pkgInfo) translateFunc(o *out, key, leanName string, extraParams []lean
 // ---------------------------------------------------------------- defaults of Fprint / Fwrite
 
 func (p *pkgInfo) settingsLiteral(o *out, fn string) map[string]string {
+	return p.settingsOf(o, fn, 0)
+}
+
+// settingsOf: the printerSettings a function builds before it hands them to newPrinter /
+// returns them: a literal, or the result of a helper that returns one, followed by assignments of
+// constants to fields (`settings.leadingDecimal = true`).
+func (p *pkgInfo) settingsOf(o *out, fn string, depth int) map[string]string {
 	fd := p.funcs[fn]
-	if fd == nil {
+	if fd == nil || depth > 4 {
 		return nil
 	}
 	res := map[string]string{}
 	found := false
-	ast.Inspect(fd.Body, func(n ast.Node) bool {
-		cl, ok := n.(*ast.CompositeLit)
-		if !ok {
-			return true
+	constOf := func(e ast.Expr) (string, bool) {
+		if id, ok := e.(*ast.Ident); ok && (id.Name == "true" || id.Name == "false") {
+			return id.Name, true
 		}
-		id, ok := cl.Type.(*ast.Ident)
-		if !ok || id.Name != "printerSettings" {
-			return true
+		if n, ok := p.evalConst(e); ok {
+			return leanInt(n), true
 		}
-		found = true
-		for _, el := range cl.Elts {
-			kv, ok := el.(*ast.KeyValueExpr)
-			if !ok {
-				o.problem("%s: positional printerSettings literal", fn)
-				continue
+		return "", false
+	}
+	var fromExpr func(e ast.Expr) bool
+	fromExpr = func(e ast.Expr) bool {
+		if u, ok := e.(*ast.UnaryExpr); ok && u.Op == token.AND {
+			e = u.X
+		}
+		switch v := e.(type) {
+		case *ast.CompositeLit:
+			id, ok := v.Type.(*ast.Ident)
+			if !ok || id.Name != "printerSettings" {
+				return false
 			}
-			k := kv.Key.(*ast.Ident).Name
-			if id, ok := kv.Value.(*ast.Ident); ok && (id.Name == "true" || id.Name == "false") {
-				res[k] = id.Name
-			} else if n, ok := p.evalConst(kv.Value); ok {
-				res[k] = leanInt(n)
-			} else {
-				o.problem("%s: non-constant default for %s", fn, k)
+			for _, el := range v.Elts {
+				kv, ok := el.(*ast.KeyValueExpr)
+				if !ok {
+					o.problem("%s: positional printerSettings literal", fn)
+					continue
+				}
+				k := kv.Key.(*ast.Ident).Name
+				if c, ok := constOf(kv.Value); ok {
+					res[k] = c
+				} else {
+					o.problem("%s: non-constant default for %s", fn, k)
+				}
+			}
+			return true
+		case *ast.CallExpr:
+			if id, ok := v.Fun.(*ast.Ident); ok && len(v.Args) == 0 {
+				if _, ok := p.funcs[id.Name]; ok {
+					if sub := p.settingsOf(o, id.Name, depth+1); sub != nil {
+						for k, val := range sub {
+							res[k] = val
+						}
+						return true
+					}
+				}
 			}
 		}
 		return false
-	})
+	}
+	settingsVar := ""
+	for _, st := range fd.Body.List {
+		switch v := st.(type) {
+		case *ast.AssignStmt:
+			if len(v.Lhs) == 1 && len(v.Rhs) == 1 {
+				if id, ok := v.Lhs[0].(*ast.Ident); ok && !found {
+					if fromExpr(v.Rhs[0]) {
+						found = true
+						settingsVar = id.Name
+						continue
+					}
+				}
+				if sel, ok := v.Lhs[0].(*ast.SelectorExpr); ok && found {
+					if base, ok := sel.X.(*ast.Ident); ok && base.Name == settingsVar {
+						if c, ok := constOf(v.Rhs[0]); ok {
+							res[sel.Sel.Name] = c
+						} else {
+							o.problem("%s: non-constant default for %s", fn, sel.Sel.Name)
+						}
+					}
+				}
+			}
+		case *ast.ReturnStmt:
+			if len(v.Results) == 1 && !found {
+				if fromExpr(v.Results[0]) {
+					found = true
+				}
+			}
+		}
+	}
 	if !found {
-		o.problem("%s: no printerSettings literal found", fn)
+		// fall back: a literal anywhere in the body (e.g. passed directly as an argument)
+		ast.Inspect(fd.Body, func(n ast.Node) bool {
+			if cl, ok := n.(*ast.CompositeLit); ok && !found {
+				if fromExpr(cl) {
+					found = true
+					return false
+				}
+			}
+			return true
+		})
+	}
+	if !found {
+		if depth == 0 {
+			o.problem("%s: no printerSettings literal found", fn)
+		}
+		return nil
 	}
 	return res
 }
@@ -1401,23 +1474,71 @@ func (p *pkgInfo) emitBuildResetFact(o *out) {
 		}
 	}
 	walk(fd.Body.List)
-	// the sorted-path result: a `var result []T` declaration without initialiser, or := nil/make
-	fresh := false
+	// the sorted-path result must be a FRESH slice: in Build or in a package-level helper it calls
+	// there is a `var result []T` without initialiser, a slice literal `[]T{…}` or a make([]T, …),
+	// and no variable is initialised from a slice EXPRESSION (x[a:b]: shares the backing array)
+	bodies := []*ast.BlockStmt{fd.Body}
 	ast.Inspect(fd.Body, func(n ast.Node) bool {
-		if ds, ok := n.(*ast.DeclStmt); ok {
-			if gd, ok := ds.Decl.(*ast.GenDecl); ok {
-				for _, sp := range gd.Specs {
-					vs := sp.(*ast.ValueSpec)
-					if len(vs.Values) == 0 {
-						if _, isSlice := vs.Type.(*ast.ArrayType); isSlice {
-							fresh = true
-						}
-					}
+		if c, ok := n.(*ast.CallExpr); ok {
+			if id, ok := c.Fun.(*ast.Ident); ok {
+				if callee, ok := p.funcs[id.Name]; ok && callee.Body != nil && callee.Recv == nil {
+					bodies = append(bodies, callee.Body)
 				}
 			}
 		}
 		return true
 	})
+	fresh, reslice := false, false
+	isFreshExpr := func(e ast.Expr) bool {
+		switch v := e.(type) {
+		case *ast.CompositeLit:
+			_, isSlice := v.Type.(*ast.ArrayType)
+			return isSlice
+		case *ast.CallExpr:
+			if id, ok := v.Fun.(*ast.Ident); ok && id.Name == "make" && len(v.Args) > 0 {
+				_, isSlice := v.Args[0].(*ast.ArrayType)
+				return isSlice
+			}
+		}
+		return false
+	}
+	for _, body := range bodies {
+		ast.Inspect(body, func(n ast.Node) bool {
+			switch v := n.(type) {
+			case *ast.DeclStmt:
+				if gd, ok := v.Decl.(*ast.GenDecl); ok {
+					for _, sp := range gd.Specs {
+						vs, ok := sp.(*ast.ValueSpec)
+						if !ok {
+							continue
+						}
+						if _, isSlice := vs.Type.(*ast.ArrayType); isSlice && len(vs.Values) == 0 {
+							fresh = true
+						}
+						for _, val := range vs.Values {
+							if isFreshExpr(val) {
+								fresh = true
+							}
+							if _, ok := val.(*ast.SliceExpr); ok {
+								reslice = true
+							}
+						}
+					}
+				}
+			case *ast.AssignStmt:
+				for _, r := range v.Rhs {
+					if isFreshExpr(r) {
+						fresh = true
+					}
+					if _, ok := r.(*ast.SliceExpr); ok {
+						reslice = true
+					}
+				}
+			}
+			return true
+		})
+	}
+	fresh = fresh && !reslice
 	// any other write to the receiver's slice besides the reset counts against it
 	ast.Inspect(fd.Body, func(n ast.Node) bool {
 		as, ok := n.(*ast.AssignStmt)
